@@ -46,7 +46,8 @@ HEADER_KINDS = {"if", "elif", "else", "for", "while", "def", "try", "except", "m
 LOCATABLE = {"mark", "bright", "sleep", "blink", "aug", "call", "ret", "if", "elif", "for", "while", "def"}
 
 # spacing variants: 0 canonical, 1 loose, 2 tight, 3 space before the call parenthesis, 4 around the dot, 5 doubled blanks,
-# 6 keyword directly against a parenthesis (`if(v == 1):`, `while(True):`, `return(a)`), 7 parenthesised after a blank
+# 6 keyword directly against a parenthesis (`if(v == 1):`, `while(True):`, `return(a)`), 7 parenthesised after a blank,
+# 8 blanks inside the parentheses (`while ( True ):`)
 TEXT = {
     "imp-led":   {0: "from Reduino.Actuators import Led", 5: "from  Reduino.Actuators  import  Led"},
     "imp-mon":   {0: "from Reduino.Communication import SerialMonitor", 5: "from  Reduino.Communication  import  SerialMonitor"},
@@ -60,16 +61,16 @@ TEXT = {
     "blink": {0: "led.blink({K}, 2)", 1: "led.blink( {K} , 2 )", 2: "led.blink({K},2)", 3: "led.blink ({K}, 2)", 4: "led . blink({K}, 2)"},
     "aug":   {0: "v = v + {K}", 1: "v  =  v  +  {K}", 2: "v=v+{K}"},
     "call":  {0: "f{R}({K})", 1: "f{R}( {K} )", 3: "f{R} ({K})"},
-    "ret":   {0: "return a + {K}", 1: "return  a  +  {K}", 2: "return a+{K}", 6: "return(a + {K})", 7: "return (a + {K})"},
-    "if":    {0: "if v == {K}:", 1: "if v  ==  {K} :", 2: "if v=={K}:", 6: "if(v == {K}):", 7: "if (v == {K}):"},
-    "elif":  {0: "elif v == {K}:", 1: "elif v  ==  {K} :", 2: "elif v=={K}:", 6: "elif(v == {K}):", 7: "elif (v == {K}):"},
+    "ret":   {0: "return a + {K}", 1: "return  a  +  {K}", 2: "return a+{K}", 6: "return(a + {K})", 7: "return (a + {K})", 8: "return ( a + {K} )"},
+    "if":    {0: "if v == {K}:", 1: "if v  ==  {K} :", 2: "if v=={K}:", 6: "if(v == {K}):", 7: "if (v == {K}):", 8: "if ( v == {K} ):"},
+    "elif":  {0: "elif v == {K}:", 1: "elif v  ==  {K} :", 2: "elif v=={K}:", 6: "elif(v == {K}):", 7: "elif (v == {K}):", 8: "elif ( v == {K} ) :"},
     "else":  {0: "else:", 1: "else :"},
     "for":   {0: "for i{K} in range(2):", 1: "for i{K} in range( 2 ) :", 3: "for i{K} in range (2):", 5: "for  i{K}  in  range(2):"},
-    "while": {0: "while v < {K}:", 1: "while v  <  {K} :", 2: "while v<{K}:", 6: "while(v < {K}):", 7: "while (v < {K}):"},
+    "while": {0: "while v < {K}:", 1: "while v  <  {K} :", 2: "while v<{K}:", 6: "while(v < {K}):", 7: "while (v < {K}):", 8: "while ( v < {K} ):"},
     "def":   {0: "def f{K}(a):", 1: "def f{K}( a ) :", 3: "def f{K} (a):"},
     "try":   {0: "try:", 1: "try :"},
     "except": {0: "except Exception as e{R}:", 1: "except Exception as e{R} :", 5: "except  Exception  as  e{R}:"},
-    "main":  {0: "while True:", 1: "while True :", 5: "while  True:", 6: "while(True):", 7: "while (True):"},
+    "main":  {0: "while True:", 1: "while True :", 5: "while  True:", 6: "while(True):", 7: "while (True):", 8: "while ( True ):"},
 }
 TRAILING_COMMENT = "  # note"
 TRAILING_WS = "  "
@@ -360,6 +361,10 @@ CATALOGUE: dict[str, dict] = {
     "return-minus-tight": {"s": ["return-{P}"]},
     "return-tab": {"s": ["return\t{P}"]},
     "if-paren-tight": {"s": ["if(v == {P}):", "    mon.write(1)"]},
+    # arms whose suite does nothing: the header is still a statement of the program (it decides which later arm runs)
+    "elif-pass-else": {"s": ["if v == 1:", "    mon.write(1)", "elif v == {P}:", "    pass", "else:", "    mon.write(2)"], "line": 2},
+    "elif-print-elif": {"s": ["if v == 1:", "    mon.write(1)", "elif v == {P}:", "    print(\"host only\")", "elif v == 3:", "    mon.write(3)"], "line": 2},
+    "if-pass-else": {"s": ["if v == {P}:", "    pass", "else:", "    mon.write(2)"]},
     "elif-paren-tight": {"s": ["if v == 1:", "    mon.write(1)", "elif(v == {P}):", "    mon.write(2)"], "line": 2},
     "while-paren-tight": {"s": ["while(v < {P}):", "    v += 1"]},
     "return-bare": {"s": ["return"], "probe": "effect"},
@@ -515,9 +520,8 @@ def account(kind: str, ctx: str) -> dict:
         return rec
     reported = [r for (_s, _d, ln, r) in (skipped or []) if _strip_comment(ln) == _strip_comment(key)]
     probe = entry.get("probe")
-    text = repr(prog) + "\n" + cpp
     if probe is None:
-        visible = P in text
+        visible = P in cpp                 # the statement must reach the emitted text (the IR alone is not the program)
     elif probe == "suite":
         mp = _marker_paths(prog)
         pay, ref = mp.get(int(P), []), mp.get(9001, [])
